@@ -2,6 +2,7 @@ package journal
 
 import (
 	"fmt"
+	"sort"
 
 	"github.com/sboehler/knut/lib/amounts"
 	"github.com/sboehler/knut/lib/common/compare"
@@ -13,6 +14,7 @@ import (
 	"github.com/sboehler/knut/lib/model/posting"
 	"github.com/sboehler/knut/lib/model/price"
 	"github.com/sboehler/knut/lib/model/transaction"
+	"github.com/sboehler/knut/lib/syntax"
 	"github.com/shopspring/decimal"
 )
 
@@ -179,9 +181,50 @@ func Sort() *Processor {
 	return &Processor{
 		DayEnd: func(d *Day) error {
 			compare.Sort(d.Transactions, transaction.Compare)
+			sortBySource(d.Prices, func(p *model.Price) *syntax.Range {
+				if p.Src == nil {
+					return nil
+				}
+				return &p.Src.Range
+			})
+			sortBySource(d.Openings, func(o *model.Open) *syntax.Range {
+				if o.Src == nil {
+					return nil
+				}
+				return &o.Src.Range
+			})
+			sortBySource(d.Assertions, func(a *model.Assertion) *syntax.Range {
+				if a.Src == nil {
+					return nil
+				}
+				return &a.Src.Range
+			})
+			sortBySource(d.Closings, func(c *model.Close) *syntax.Range {
+				if c.Src == nil {
+					return nil
+				}
+				return &c.Src.Range
+			})
 			return nil
 		},
 	}
+}
+
+// sortBySource orders the directives of a day which are not transactions by their
+// position in the source files (path, then offset). Files are loaded concurrently,
+// so the order in which same-day directives of different files arrive is not
+// deterministic. Directives without a source keep their relative order.
+func sortBySource[T any](ds []T, src func(T) *syntax.Range) {
+	sort.SliceStable(ds, func(i, j int) bool {
+		r1, r2 := src(ds[i]), src(ds[j])
+		if r1 == nil || r2 == nil {
+			return r1 == nil && r2 != nil
+		}
+		if r1.Path != r2.Path {
+			return r1.Path < r2.Path
+		}
+		return r1.Start < r2.Start
+	})
 }
 
 type Collection interface {
